@@ -289,6 +289,14 @@ def stress_shapes(limit=4096):
     ]
     for name, d, text in fam:
         yield name, d, text
+    # token runs with a failing tail: the classic trigger of catastrophic regex backtracking in line patterns
+    k = 0
+    for tok in ['*', '-', '_', '=', '#', '`', '~', '|', ':', '<', '>', '[', ']', '(', ')', '!', '&', ';', '\\', '1.', ':-', '|-', '> ', '- ', '<a ', '="']:
+        for sep in ('', ' ', '  ', '\t'):
+            for n in (30, 300, 1500):
+                for tail in ('', 'x', ' x\n\ny'):
+                    k += 1
+                    yield 'token-run-%d' % k, 0, (((tok + sep) * n)[:limit - 8] + tail + '\n')
     # staircase families: every line is nested one level deeper and starts with two markers, so that each level
     # holds a list/quote followed by a different container (work must not double per level)
     for depth in (8, 14, 20, 26, 40, 60):
